@@ -16,7 +16,8 @@ def run(tier, seed, res):
     engine.regressions(PROP, res, ["C01", "C02"])
     quick = tier == "quick"
     engine.run(PROP, "c05", tier, seed, res, props=["C01", "C02"], workers=8 if quick else 12,
-               structures=3 if quick else 40, instances=6 if quick else 16)
+               structures=3 if quick else 40, instances=6 if quick else 16,
+               extra=["--dynamic-termdet"])      # half of the structures are compiled with ptgpp -D: the four-counter detector runs for real (C11's end-to-end part)
     res.rule += ("; every instance is run on 2..4 MPI ranks with a generated placement table, broadcast topology (star/chain/binomial), "
                  "short-message limit and tile size on both sides of it; the oracle is the reference interpreter (exactly-once on the rank the "
                  "placement names, input values, final collection contents gathered per owner), so a result that depended on the process "
